@@ -1,8 +1,9 @@
 // C08 harness: interprets a mock scenario through the public C++ API (mock().expectNCalls / actualCall / checkExpectations ...)
 // with a recording reporter that leaves the scenario at the first failure (as the real reporter leaves the test), then
 // mock().clear().  Observation: failing operation + failure category (first line of the message mapped to an enum, with the
-// names it mentions) + the (expected, called) counters of the expectations the message lists, then the returned values.
-// Scenario grammar: see checks/C08.py.
+// names it mentions) + the (expected, called) counters of the expectations the message lists, then the returned values, the
+// caller's output buffers after every completed actual call and the answers of expectedCallsLeft().
+// Every operation is made on mock() or, after ":s <n>", on the named scope mock("s<n>").  Scenario grammar: see checks/C08.py.
 #include "CppUTest/TestHarness.h"
 #include "CppUTestExt/MockSupport.h"
 #include "CppUTestExt/MockFailure.h"
@@ -32,6 +33,9 @@ static Val readVal(Toks& t)
 }
 static std::string fname(unsigned long long id) { return "f" + hx(id); }
 static std::string pname(unsigned long long id) { return "p" + hx(id); }
+static std::string oname(unsigned long long id) { return "o" + hx(id); }
+static const size_t OUT_MAX = 8;                      // size of every caller buffer (C08_Model.out_max)
+static std::deque<std::vector<unsigned char>> bufs;   // caller buffers and expected output data, alive until the scenario ends
 
 template <class Call> static void withParam(Call& c, const std::string& n, const Val& v)
 {
@@ -77,8 +81,19 @@ static std::string showValue(const MockNamedValue& v)
 }
 
 // "f1a" -> 1a ; anything else -> "?" (makes the observation differ)
-static std::string idOf(const std::string& s, char prefix)
+static unsigned long long curScope = 0;   // scope of the operation in progress: failure texts name functions "s<scope>::f<id>"
+static std::string idOf(std::string s, char prefix)
 {
+    if (prefix == 'f' && curScope != 0) {
+        std::string sc = "s" + hx(curScope) + "::";
+        if (s.compare(0, sc.size(), sc) != 0) return "?";
+        s = s.substr(sc.size());
+    }
+    else if (prefix == 'f' && s.size() > 1 && s[0] == 's') {
+        // an operation on mock() finishes the scopes' last calls too: their failures name "s<n>::f<id>"
+        size_t k = s.find("::"); if (k == std::string::npos) return "?";
+        s = s.substr(k + 2);
+    }
     if (s.size() < 2 || s[0] != prefix) return "?";
     for (size_t i = 1; i < s.size(); i++) if (!isxdigit((unsigned char)s[i])) return "?";
     return s.substr(1);
@@ -120,6 +135,9 @@ static std::string classify(const std::string& msg)
         int listed = 0; for (auto& l : lines) if (l.find("MISSING parameters: ") != std::string::npos) listed++;
         k = ":pmissing " + idOf(between(l0, "for function \"", "\""), 'f') + " " + hx((unsigned)listed);
     }
+    else if (starts(l0, "Mock Failure: Unexpected output parameter name to function \"")) k = ":oname " + idOf(between(l0, "to function \"", "\""), 'f') + " " + idOf(between(l0, "\": ", ""), 'o');
+    else if (starts(l0, "Mock Failure: Unexpected parameter type \"")) k = ":otype " + idOf(between(l0, "to function \"", "\""), 'f') + " " + idOf(between(l0, "to output parameter \"", "\""), 'o');
+    else if (starts(l0, "MockFailure: Function called on an unexpected object: ")) k = ":ounexpected " + idOf(l0.substr(strlen("MockFailure: Function called on an unexpected object: ")), 'f') + " 0";
     else if (starts(l0, "Mock Failure: Expected call on object for function \"")) k = ":omissing " + idOf(between(l0, "for function \"", "\""), 'f') + " 0";
     else if (starts(l0, "Mock Failure: Expected call WAS NOT fulfilled.")) k = ":unfulfilled 0 0";
     else if (starts(l0, "Mock Failure: Out of order calls")) k = ":order 0 0";
@@ -134,48 +152,92 @@ static std::string classify(const std::string& msg)
     return k + " " + section(lines, a, b) + " " + section(lines, b, c);
 }
 
+static unsigned char* newBuf(const std::string& content, size_t size)
+{
+    bufs.emplace_back(content.begin(), content.end());
+    if (bufs.back().size() < size) bufs.back().resize(size, 0xEE);
+    return bufs.back().data();
+}
+
 int main()
 {
     Toks t; Out o;
     Recorder rec;
     while (readline(t)) {
-        keep.clear();
+        keep.clear(); bufs.clear();
         rec.msg.clear(); rec.count = 0;
         mock().clear();
         mock().setMockFailureStandardReporter(&rec);
-        std::vector<std::string> rets;
+        std::vector<std::string> rets, outs, lefts;
         long failedAt = -1; long idx = 0;
+        curScope = 0;
         try {
             for (; !t.end(); idx++) {
                 std::string op = t.next();
-                if (op == ":e") {
+                curScope = 0;
+                if (op == ":s") { curScope = t.u(); op = t.next(); }
+                MockSupport& ms = curScope ? mock(("s" + hx(curScope)).c_str()) : mock();
+                if (op == ":e" || op == ":E") {
                     unsigned n = (unsigned)t.u(); std::string f = fname(t.u()); int k = t.n();
-                    MockExpectedCall& e = mock().expectNCalls(n, f.c_str());
+                    MockExpectedCall& e = ms.expectNCalls(n, f.c_str());
                     for (int i = 0; i < k; i++) { std::string pn = pname(t.u()); Val v = readVal(t); withParam(e, pn, v); }
+                    if (op == ":E") {
+                        int ko = t.n();
+                        for (int i = 0; i < ko; i++) {
+                            std::string on = oname(t.u()); std::string b; t.bytes(b);
+                            e.withOutputParameterReturning(on.c_str(), newBuf(b, 1), b.size());
+                        }
+                        if (t.peek() == "~") t.next(); else e.onObject((void*)(uintptr_t)t.u());
+                    }
                     if (t.peek() == "~") t.next(); else { Val v = readVal(t); andReturn(e, v); }
                     if (t.u()) e.ignoreOtherParameters();
                 }
-                else if (op == ":c") {
+                else if (op == ":c" || op == ":C") {
                     std::string f = fname(t.u()); int k = t.n();
-                    std::vector<std::pair<std::string, Val>> ps;
-                    for (int i = 0; i < k; i++) { std::string pn = pname(t.u()); ps.push_back(std::make_pair(pn, readVal(t))); }
+                    struct It { char kind; std::string name; Val v; unsigned char* buf; void* obj; };
+                    std::vector<It> its;
+                    for (int i = 0; i < k; i++) {
+                        It it; it.kind = 'i'; it.buf = nullptr; it.obj = nullptr;
+                        if (op == ":C") {
+                            std::string tag = t.next();
+                            if (tag == ":in") { it.name = pname(t.u()); it.v = readVal(t); }
+                            else if (tag == ":out") { it.kind = 'o'; it.name = oname(t.u()); std::string b; t.bytes(b); it.buf = newBuf(b, OUT_MAX); }
+                            else if (tag == ":obj") { it.kind = 'j'; it.obj = (void*)(uintptr_t)t.u(); }
+                            else { fprintf(stderr, "bad item %s\n", tag.c_str()); exit(3); }
+                        }
+                        else { it.name = pname(t.u()); it.v = readVal(t); }
+                        its.push_back(it);
+                    }
                     bool want = t.u() != 0;
-                    MockActualCall& c = mock().actualCall(f.c_str());
-                    for (auto& p : ps) withParam(c, p.first, p.second);
+                    MockActualCall& c = ms.actualCall(f.c_str());
+                    for (auto& it : its) {
+                        if (it.kind == 'i') withParam(c, it.name, it.v);
+                        else if (it.kind == 'o') c.withOutputParameter(it.name.c_str(), it.buf);
+                        else c.onObject(it.obj);
+                    }
                     if (want) { if (c.hasReturnValue()) rets.push_back(showValue(c.returnValue())); else rets.push_back(":n"); }
+                    for (auto& it : its) if (it.kind == 'o') outs.push_back(hbytes(it.buf, OUT_MAX));
                 }
-                else if (op == ":chk") mock().checkExpectations();
-                else if (op == ":clr") mock().clear();
-                else if (op == ":strict") mock().strictOrder();
-                else if (op == ":ign") mock().ignoreOtherCalls();
+                else if (op == ":chk") ms.checkExpectations();
+                else if (op == ":clr") ms.clear();
+                else if (op == ":strict") ms.strictOrder();
+                else if (op == ":ign") ms.ignoreOtherCalls();
+                else if (op == ":en") ms.enable();
+                else if (op == ":dis") ms.disable();
+                else if (op == ":left") lefts.push_back(ms.expectedCallsLeft() ? "1" : "0");
                 else { fprintf(stderr, "bad op %s\n", op.c_str()); exit(3); }
             }
         } catch (Stop&) { failedAt = idx; }
+        std::string verdict = failedAt < 0 ? std::string() : classify(rec.msg);
         mock().clear();
         mock().setMockFailureStandardReporter(nullptr);
-        if (failedAt < 0) o << "~"; else { o << hx((unsigned long long)failedAt); o << classify(rec.msg); }
+        if (failedAt < 0) o << "~"; else { o << hx((unsigned long long)failedAt); o << verdict; }
         o << hx(rets.size());
         for (auto& r : rets) o << r;
+        o << hx(outs.size());
+        for (auto& r : outs) o << r;
+        o << hx(lefts.size());
+        for (auto& r : lefts) o << r;
         o.flush();
     }
     return 0;
